@@ -56,6 +56,7 @@ class Function:
     nlines: int = 0
     src_line: int = 0
     crate: str = ''
+    upvars: tuple = ()     # closure bodies: names of the captured variables, by field index
 
 
 # ---------------------------------------------------------------- helpers
@@ -268,6 +269,11 @@ def parse_dump(text, crate=''):
                     cur = Block(mm.group(1), bool(mm.group(2)))
                     f.blocks[cur.name] = cur
                     continue
+                dm = re.match(r'^debug (\w+) => .*?\(\*?_1\)?\.(\d+): ', l)
+                if dm:
+                    uv = dict(f.upvars)
+                    uv.setdefault(int(dm.group(2)), dm.group(1))
+                    f.upvars = tuple(sorted(uv.items()))
                 continue        # debug / scope lines
             if l == '}':
                 cur = None
@@ -463,11 +469,14 @@ def parse_rvalue(s):
         key = s[:end + 1]
         rest = s[end + 1:].strip()
         ops = []
+        names = []
         if rest.startswith('{'):
             body = rest[1:-1].strip()
             for fa in split_top(body):
-                ops.append(parse_operand(fa.split(': ', 1)[1]))
-        return ('closure', key, ops)
+                nm, op = fa.split(': ', 1)
+                names.append(nm.strip())
+                ops.append(parse_operand(op))
+        return ('closure', key, ops, tuple(names))
     m = re.match(r'^(.+?) \{ (.*) \}$', s)
     if m and not m.group(1).startswith(('copy ', 'move ')):
         names, ops = [], []
@@ -600,6 +609,7 @@ def compile_function(f):
     for k in f.locals:
         mx = max(mx, _loc(k))
     f.nlocals = mx + 1
+    nclo = 0
     for b in f.blocks.values():
         stmts = []
         raw = list(b.raw)
@@ -618,7 +628,11 @@ def compile_function(f):
             if ' = ' not in text:
                 raise MirSyntax('statement: ' + text)
             lhs, rhs = text.split(' = ', 1)
-            stmts.append(('assign', parse_place(lhs), parse_rvalue(rhs), span))
+            rv = parse_rvalue(rhs)
+            if rv[0] == 'closure' and rv[2]:
+                rv = rv + (nclo,)          # ordinal among the capturing closures this function builds, in textual order
+                nclo += 1
+            stmts.append(('assign', parse_place(lhs), rv, span))
         b.stmts = stmts
         b.term = parse_terminator(term_text, term_span)
     f.compiled = True
